@@ -579,3 +579,7 @@ META = {
     'technique': 'static analysis: option-coverage set comparison, dominator check of None-able attributes, exhaustive truth-table enumeration of filter predicates and of the abstractly interpreted weight computation',
     'design_ref': 'DESIGN.md section 5, C11',
 }
+
+
+from . import shared as _shared
+_shared.register('C11', 'C11')
